@@ -8,6 +8,8 @@ Sub-checks (the "check" key of a case):
   solver    SGD / Adam / Adagrad epoch loop with a scripted duck-typed sampler (every entry once, unit weights),
             so that f_est is the exact objective; the function handle is wrapped and records the objective and the
             model values at every epoch boundary ("true trace").
+  init      gcp_opt(init="random") under an enumerated numpy seed: unit weights, scaled to the norm of the data,
+            non-negative, a function of the random stream only; no epochs -> returned unchanged.
   lbfgsb    scipy wrapper: final <= initial, final_f is the objective of the returned model, bounds, callback slot.
   reuse     HISTORY explorer (plain product of words): words of <= 3 solves on ONE optimizer object; the last
             solve is compared bit for bit with the same solve on a fresh object.
@@ -55,13 +57,14 @@ BOUNDS = {
              "((2,3): 6) draws, <= 1 deviation beyond; boundary draw u=0.0 on (2,2). solver (3 888 solves): {SGD,Adam,"
              "Adagrad} x rate {1e-3,1e-1,10} x decay {.1,1} x max_fails 0..2 x max_iters 0..4 x epoch_iters {1,2} x "
              "{Gaussian, Poisson} x 3 pool members, rank 2, + f_est_tol {0.98 F0, 0.5 F0} and gcp_opt-driver slices "
-             "(objective as tuple and as enum, dense and sparse data). lbfgsb (240 solves): maxiter {0,1,2,5,40} x 2 "
+             "(objective as tuple and as enum, dense and sparse data); init: 3 members x {dense, sparse} x rank 1-3 x 2 "
+             "numpy seeds. lbfgsb (240 solves): maxiter {0,1,2,5,40} x 2 "
              "losses x 3 members x rank {1,2} x mask {none, one hole} x {solve, gcp_opt}. reuse (1 344 words): 5 optimizer "
              "kinds (LBFGSB with / without user callback) x 2 configurations x {scripted, seeded real} sampler x all 84 "
              "words of length <= 3 over 4 problems (two sizes, two ranks, two losses)",
-    "thorough": "sampler (~4.5 M executions): (2,2) all patterns with the full (nn, nz) grid 0..nnz+2 x 0..zeros+2, (2,3) "
+    "thorough": "sampler (~4 M executions): (2,2) all patterns with the full (nn, nz) grid 0..nnz+2 x 0..zeros+2, (2,3) "
                 "all 64 patterns (GCPSampler lattice on 8 classes), (2,2,2) 8 classes; Poisson counts 0..3; scripts "
-                "complete for <= 5 draws ((2,2,2): 4), <= 2 deviations up to 12 / 8 / 6 draws; boundary draws on (2,2) "
+                "complete for <= 5 draws ((2,2,2): 4), <= 2 deviations up to 12 / 7 / 6 draws; boundary draws on (2,2) "
                 "and (2,3). solver (77 220 solves): rate {1e-3,1e-2,1e-1,1,10} x decay {.1,.5,1} x max_fails 0..3 x "
                 "max_iters 0..6 x epoch_iters {1,2,3} x rank {1,2} x 5 pool members. lbfgsb: maxiter {0,1,2,3,5,10,40,"
                 "200}. reuse: 5 problems incl. sparse data (155 words), 3 configurations",
@@ -260,7 +263,7 @@ def _pattern_classes(n):
 
 
 # cells -> (complete enumeration up to this many cell/entry draws, <= 2 deviations up to this many draws, 1 beyond)
-EXPLORE = {"quick": {4: (5, 8), 6: (4, 6)}, "thorough": {4: (5, 12), 6: (5, 8), 8: (4, 6)}}
+EXPLORE = {"quick": {4: (5, 8), 6: (4, 6)}, "thorough": {4: (5, 12), 6: (5, 7), 8: (4, 6)}}
 
 
 SLICE = 2500
@@ -470,6 +473,16 @@ def _lbfgsb_cases(tier, seed):
     return out
 
 
+def _init_cases(tier, seed):
+    out = []
+    for d in range(len(POOL)) if tier == "thorough" else _members(tier, seed):
+        for sparse in (False, True):
+            for R in (1, 2, 3):
+                out.append({"check": "init", "data": d, "sparse": sparse, "rank": R, "seed": seed,
+                            "np_seeds": list(range(4 if tier == "thorough" else 2))})
+    return out
+
+
 PROBLEMS = {
     "P1": {"data": 0, "loss": "GAUSSIAN", "rank": 2, "salt": 0},
     "P2": {"data": 5, "loss": "POISSON", "rank": 2, "salt": 3},
@@ -507,6 +520,7 @@ def gen_cases(tier, seed):
     sam = _sampler_cases(tier, seed)
     reu = _reuse_cases(tier, seed)
     yield from sol[:4]
+    yield from _init_cases(tier, seed)
     yield from lb[:2]
     yield from sam[:4]
     yield from reu[:2]
@@ -1095,6 +1109,57 @@ def _one_solve(c, ctx, ttb):
         ctx.flag("solver:tol_stop")
     if lb > -np.inf and any((m == lb).any() for m in ret_f):
         ctx.flag("solver:bound_active")
+
+
+def _run_init(case, ctx):
+    """Driver: random initial guess - unit weights, scaled to the norm of the data, a function of the random
+    stream only; with no epochs the solve returns it unchanged."""
+    import pyttb as ttb
+    from pyttb.gcp.handles import Objectives
+
+    shape, X, data = _make_data(case["data"], sparse=case["sparse"])
+    R = case["rank"]
+    ctx.state()
+    for ns in case["np_seeds"]:
+        sub = dict(case, np_seeds=[ns])
+        res = []
+        for rep_ in range(2):
+            np.random.seed(ns + 10 * case.get("seed", 0))
+            opt = _make_opt("SGD", max_iters=0, epoch_iters=1)
+            ctx.tick()
+            try:
+                M, M0, info = ttb.gcp_opt(data, R, Objectives.GAUSSIAN, opt, init="random",
+                                          sampler=FullSampler(shape, X), printitn=0)
+            except CaseTimeout:
+                raise
+            except Exception as e:  # noqa: BLE001
+                ctx.fail("gcp_opt.init", exc_symptom(e), short_tb(e), variant="random", case=sub)
+                return
+            res.append(([np.array(m) for m in M0.factor_matrices], [np.array(m) for m in M.factor_matrices],
+                        np.array(M0.weights)))
+        f0, fm, w = res[0]
+        if [m.shape for m in f0] != [(s_, R) for s_ in shape]:
+            ctx.fail("gcp_opt.init", "wrong_shape", f"{[m.shape for m in f0]}", variant="random", case=sub)
+            continue
+        if not np.all(w == 1.0):
+            ctx.fail("gcp_opt.init", "wrong_value", f"weights of the initial guess {w.tolist()}", variant="random",
+                     case=sub)
+        nx = float(np.sqrt(np.sum(X ** 2)))
+        nm = float(np.sqrt(np.sum(rm.kruskal(np.ones(R), f0) ** 2)))
+        if abs(nm - nx) > 1e-9 * max(1.0, nx):
+            ctx.fail("gcp_opt.init", "wrong_scale", f"norm of the random initial guess {nm!r}, norm of the data {nx!r}",
+                     variant="random", case=sub)
+        if any((m < 0).any() or not np.all(np.isfinite(m)) for m in f0):
+            ctx.fail("gcp_opt.init", "bound_violated", "random initial guess has negative / non-finite entries",
+                     variant="random", case=sub)
+        if any(not np.array_equal(a, b) for a, b in zip(f0, res[1][0])):
+            ctx.fail("gcp_opt.init", "history_dependent", "same numpy seed, different initial guess", variant="random",
+                     case=sub)
+        if any(not np.array_equal(a, b) for a, b in zip(f0, fm)):
+            ctx.fail("gcp_opt", "wrong_value", "max_iters=0 but the result differs from the initial guess",
+                     variant="random", case=sub)
+        ctx.outcome(f0)
+    ctx.nontriv()
 
 
 def _run_lbfgsb(case, ctx):
